@@ -650,8 +650,23 @@ class Exec:
                 return o.length > 0
             if isinstance(o, HDict):
                 return ops.dict_nonempty(o.dom)
+            if isinstance(o, HObj) and o.cf is not None:
+                # an object is truthy unless its class says otherwise (__bool__, then __len__)
+                for dunder in ("__bool__", "__len__"):
+                    lk = self.facts.lookup(o.cf, dunder)
+                    if lk and lk[0] == "method":
+                        if self.spec_mode:
+                            raise OutsideSubset(f"truthiness of a {o.clsname} (defines {dunder}) inside a specification: use len()/is None explicitly")
+                        r = self.call_unit(lk[1], v, [], {})
+                        return self.truth(r) if dunder == "__bool__" else (ops.as_int(r) != 0)
             return z3.BoolVal(True)
-        if isinstance(v, (ClassRef, EnumVal, tuple, ElemRef)):
+        if isinstance(v, ElemRef):
+            lst = self.heap[v.oid]
+            ecf = self.facts.cls(v.clsname) if v.clsname else lst.cf
+            if ecf is not None and v.part != "pair" and (self.facts.lookup(ecf, "__bool__") or self.facts.lookup(ecf, "__len__")):
+                raise OutsideSubset(f"truthiness of a list element whose class defines __bool__/__len__")
+            return z3.BoolVal(True)
+        if isinstance(v, (ClassRef, EnumVal, tuple)):
             return z3.BoolVal(True)
         raise OutsideSubset(f"truthiness of {v}")
 
@@ -693,6 +708,12 @@ class Exec:
         return self.attr_of(base, n.attr, n)
 
     def attr_of(self, base, attr, n=None):
+        if isinstance(base, tuple) and len(base) == 3 and base[0] == "method" and base[2] == "__class__" and attr in ("__name__", "__qualname__"):
+            # type(x).__name__ of a dynamically typed value: some string (uninterpreted function of the value)
+            f = z3.Function("py_class_name", Val, z3.StringSort())
+            return S(f(ops.to_val(base[1])))
+        if isinstance(base, ClassRef) and attr in ("__name__", "__qualname__"):
+            return S(z3.StringVal(base.name)) if base.name else S(z3.String(fresh_name("class_name")))
         if isinstance(base, ElemRef):
             lst = self.heap[base.oid]
             if base.part == "pair":
@@ -1035,6 +1056,28 @@ class Exec:
 
     def e_Tuple(self, n):
         return self.alloc(HTuple([self.eval(e) for e in n.elts], is_tuple=True))
+
+    def e_ListComp(self, n):
+        """[<elt> for x in xs] with one generator and no condition: a fresh list of the same length whose elements are unconstrained.
+        [A] the element expression is side-effect free and does not raise (noted in the evidence through ex.notes)."""
+        if len(n.generators) != 1 or n.generators[0].ifs or n.generators[0].is_async:
+            raise OutsideSubset("list comprehension with a condition or several generators")
+        src = self.eval(n.generators[0].iter)
+        if isinstance(src, Ref):
+            o = self.heap[src.oid]
+            if isinstance(o, HList):
+                ln = z3.Length(o.seq)
+            elif isinstance(o, HObjList):
+                ln = o.length
+            elif isinstance(o, HTuple):
+                ln = z3.IntVal(len(o.items))
+            else:
+                raise OutsideSubset("list comprehension over a non-list")
+            out = HList("val", z3.Const(fresh_name("listcomp"), ops.seq_sort("val")))
+            self.pc.append(z3.Length(out.seq) == ln)
+            self.notes.append(f"list comprehension at line {n.lineno}: elements abstracted (element expression assumed pure and non-raising)")
+            return self.alloc(out)
+        raise OutsideSubset("list comprehension over a scalar")
 
     def e_Dict(self, n):
         items = {}
@@ -1468,6 +1511,8 @@ class Exec:
                         flag = SV("bool", z3.Bool(fresh_name(f"{o.path}.has_{an}")))
                         o.fields["__has_" + an] = flag
                     return flag
+                if o.cf is None and not getattr(o, "fresh", False):
+                    raise OutsideSubset(f"hasattr({o.path}, {an!r}) on an untyped input object: declare the attribute's type to make its presence symbolic")
                 return FALSE
             raise OutsideSubset("hasattr")
         if name == "list":
@@ -2517,7 +2562,8 @@ class Exec:
                 continue      # created inside the body
             if self._fp_same(v, fp_after_havoc[k]):
                 continue
-            was_havocked = k in fp_before_havoc and not self._fp_same(fp_before_havoc[k], fp_after_havoc[k])
+            # a field that the havoc step itself brought into being (declared in loop_havoc on a fresh object) counts as havocked
+            was_havocked = (k not in fp_before_havoc) or not self._fp_same(fp_before_havoc[k], fp_after_havoc[k])
             if not was_havocked:
                 o = self.heap.get(k[1])
                 where = getattr(o, "path", None) or f"object {k[1]}"
